@@ -5,6 +5,7 @@ CONSTANTS
   Design <- MCDesign
   Req <- MCReq
   ModeTable <- MCModes
+  Rcvs <- MCRcvs
   NSlots = 8
   Leaky = FALSE
 INIT Init
@@ -18,5 +19,6 @@ INVARIANT BlockedHoldsNoSpectrum
 INVARIANT ReportIsOneEntryPerRequest
 INVARIANT ReportStatesWhatWasComputed
 INVARIANT ReportedCsvIsConsistent
+INVARIANT ReportedViewsIndependent
 PROPERTY NetworkFrozen
 PROPERTY SimParamsFrozen
